@@ -276,6 +276,36 @@ def run_engine_check(pid, tier, seed, wd):
     log("[%s] random histories: %d traces / %d events validated by TLC; drift %d, monitor failures %d" %
         (pid, rs["traces"], rs["events"], len(tv["drifts"]), len(mine)))
 
+    # ------------------------------------------------------------------ 4. the same monitors on macro-generated functions
+    import macro_scripts as _ms
+    fx = _ms.load_fixtures()
+    names = [n for n, f in fx.items() if f["cfg"]["policy"] in spec["pols"] and not n.startswith("a_await")
+             and (f["cfg"]["limit"] or f["cfg"]["maxmem"] or f["cfg"]["ttl"])]
+    rng = random.Random(seed * 7 + int(pid[1:]))
+    mscripts = []
+    for i in range(400 if thorough else 70):
+        ns = rng.sample(names, 1 if rng.random() < 0.7 else 2)
+        mscripts.append(_ms.random_script(rng, fx, ns, i + 1, 80 if thorough else 45, nkeys=rng.choice([4, 5, 7])))
+    msp = os.path.join(wd, "macro_scripts.jsonl")
+    _ms.write_scripts(msp, mscripts)
+    mtr = os.path.join(wd, "macro_traces.ndjson")
+    harness_json(["macro", "--script", msp, "--out", mtr], timeout=3000)
+    mv = validate_file("Trace", tcfg, mtr, pid + "_macro", nshards=14, timeout=3000)
+    if mv["errors"]:
+        raise ToolError("macro trace validation incomplete: " + "; ".join(mv["errors"][:3]))
+    mmine = sorted(set(l for (i, l) in mv["fails"] if i == mon))
+    for ln in mmine[:5]:
+        tp = os.path.join(REPLAYS, "%s_macro_%d_%d.ndjson" % (pid, seed, ln))
+        inner = extract_trace(mtr, ln, tp)
+        tid = json.loads(open(tp).readline()).get("trace")
+        sc = next((x for x in mscripts if x["id"] == tid), None)
+        if sc:
+            _rp.sidecar(tp, "macro", {"script": sc})
+        violations.append(("monitor P_%s false on line %d of a history of macro-generated functions" % (mon, inner), tp))
+    info["macro"] = {"traces": len(mscripts), "events": mv["lines"], "drift": len(mv["drifts"]), "monitor_failures": len(mmine)}
+    log("[%s] macro-generated functions: %d traces / %d events validated by TLC; drift %d, monitor failures %d" %
+        (pid, len(mscripts), mv["lines"], len(mv["drifts"]), len(mmine)))
+
     # samples for the evidence file
     samples = []
     with open(rnd) as f:
@@ -286,7 +316,7 @@ def run_engine_check(pid, tier, seed, wd):
         samples.append({"kind": "explored transition", "edge": json.loads(f.readline())})
     coverage = {
         "states": mc["distinct"], "transitions": mc["generated"],
-        "traces_validated_against_impl": rs["traces"] + checked,
+        "traces_validated_against_impl": rs["traces"] + checked + len(mscripts),
         "impl_transitions_checked_against_spec": ev["lines"],
         "samples": samples,
         "exhaustive": True,
